@@ -82,8 +82,8 @@ struct Run
 void checkHandler(const Spec& s)
 {
 	char key[64];
-	if (s.handlerCalls > 1)
-		sim::fail("handler_mismatch", "called_twice", "request %d: handler invoked %d times", s.id, s.handlerCalls);
+	if (s.handlerCalls > (s.redirect ? 2 : 1))
+		sim::fail("handler_mismatch", "called_twice", "request %d: handler invoked %d times%s", s.id, s.handlerCalls, s.redirect ? " (one redirect, so two visits were expected)" : "");
 	if (s.oMethod != s.method)
 		sim::fail("handler_mismatch", "method", "request %d: sent method %s, handler saw %s", s.id, s.method.c_str(), s.oMethod.c_str());
 	if (s.oPath != s.pathDecoded)
@@ -155,6 +155,17 @@ void checkClient(const Spec& s, const Run& R)
 		return;
 	}
 	char key[64];
+	if (s.viaDownload)
+	{
+		// Http::download shows the application the body only (as a file)
+		if (s.cBody != body)
+		{
+			snprintf(key, sizeof key, "body;download%s%s", s.redirect ? ";redirected" : "", shape);
+			sim::fail("response_mismatch", key, "request %d (Http::download%s, response kind %d): body of %zu bytes produced, the downloaded file has %zu bytes, first difference at offset %zu", s.id,
+			          s.redirect ? " through a redirect" : "", s.respKind, body.size(), s.cBody.size(), firstDiff(body, s.cBody));
+		}
+		return;
+	}
 	if (s.cCode != code)
 	{
 		snprintf(key, sizeof key, "code%s%s", (s.respKind == 3 || s.respKind == 4) ? ";file" : s.respKind == 5 ? ";stream" : "", shape);
@@ -190,6 +201,16 @@ void aslClient(Spec* s)
 		h["Range"] = s->rangeOpen ? asl::String::f("bytes=%li-", s->rangeB) : asl::String::f("bytes=%li-%li", s->rangeB, s->rangeE);
 	asl::ByteArray body((const asl::byte*)s->body.data(), (int)s->body.size());
 	asl::HttpResponse res;
+	if (s->method == "GET" && s->viaDownload)
+	{
+		// streaming sink: the body goes to a file while it arrives
+		std::string path = "/sim/dl/" + std::to_string(s->id) + ".bin";
+		asl::Http::download(url, path.c_str(), asl::Http::Progress(), h);
+		s->cGot = true;
+		s->cCode = -3; // not observable through download()
+		sim::fs::get(path, s->cBody);
+		return;
+	}
 	if (s->method == "GET")
 		res = asl::Http::get(url, h);
 	else if (s->method == "DELETE")
@@ -309,6 +330,7 @@ void runHttp(const Plan& p)
 	int nfiles = (int)std::max<int64_t>(1, std::min<int64_t>(4, p.get("files", 1)));
 	uint64_t fseed = (uint64_t)p.get("file_seed");
 	sim::fs::mkdirs("/sim/www");
+	sim::fs::mkdirs("/sim/dl");
 	for (int i = 0; i < nfiles; i++)
 	{
 		Prng r(mix64(fseed, (uint64_t)i));
@@ -368,6 +390,7 @@ void runHttp(const Plan& p)
 	}
 	R.srv = new TestHttp;
 	R.srv->specs = &R.specs;
+	R.srv->redirectPort = PORT;
 	if (!R.srv->bind(PORT))
 	{
 		sim::fail("harness", "bind_failed", "bind failed");
@@ -470,6 +493,10 @@ void runHttp(const Plan& p)
 			sim::fail("handler_mismatch", "not_called", "request %d (%s client): handler never invoked (client code %d, %s)", s.id, s.kind ? "raw" : "asl", s.cCode, s.cNote.c_str());
 			continue;
 		}
+		if (s.redirect && s.handlerCalls == 2)
+			sim::probe("redirect_followed");
+		if (s.viaDownload)
+			sim::probe(s.redirect ? "download_through_redirect" : "download");
 		checkHandler(s);
 		checkClient(s, R);
 	}
